@@ -379,3 +379,32 @@ PINNED = [
     ("limit-x", _c("v:limit", ["name from . limit x"], True)),
     ("into-xml", _c("v:format", ["name from . into xml"], True)),
 ]
+
+
+def supplement(tier, seed):
+    """libFuzzer campaign on Parser::parse (fuzz target parse_total); artifacts are re-judged on the real binary."""
+    from .. import fuzzrun
+    ok, msg = fuzzrun.build_targets()
+    if not ok:
+        return {"available": False, "reason": msg[-300:]}
+    res = fuzzrun.campaign("parse_total", 10000 if tier == "quick" else 400000, seed)
+    arts = res.pop("artifacts", [])
+    res["artifacts_found"] = len(arts)
+    res["reproduced_on_binary"] = 0
+    res["not_reproduced_discarded"] = 0
+    vio = []
+    for kind, data in arts[:20]:
+        text = data.decode("utf-8", "replace")
+        argv = [a for a in text.split("\x01")[:12]]
+        if not any(a.strip() for a in argv) or any("\0" in a for a in argv):
+            res["not_reproduced_discarded"] += 1
+            continue
+        case = {"cls": "fuzz", "argv": argv, "expect2": False}
+        out = check(case)
+        if out.discs:
+            res["reproduced_on_binary"] += 1
+            vio.append((case, [d.to_json() for d in out.discs]))
+        else:
+            res["not_reproduced_discarded"] += 1
+    res["violations"] = vio
+    return res
